@@ -352,11 +352,20 @@ def annotate_file(src, fc, relfile, uid_start=0):
         add(parent.start, 'verus! {\n')
         add(parent.end, '\n} // verus!\n')
         n_ext = 0
+        assumed_sibs = []
+        is_trait_impl = parent.kind == 'impl' and re.search(r'\bfor\b', parent.header or '') is not None
         for sib in parent.children:
             if sib.kind == 'fn' and id(sib) not in members and sib.body_open is not None:
-                add(sib.kw, '#[verifier::external] ')
+                if is_trait_impl:
+                    # Verus does not allow a single item of a trait impl to be external: the method keeps the
+                    # TRAIT's contract, assumed (external_body) — recorded as an assumption
+                    add(sib.kw, '#[verifier::external_body] ')
+                    assumed_sibs.append(sib.name)
+                else:
+                    add(sib.kw, '#[verifier::external] ')
                 n_ext += 1
-        wraprecs.append({'kind': 'impl', 'path': parent.key(), 'siblings_marked_external': n_ext})
+        wraprecs.append({'kind': 'impl', 'path': parent.key(), 'siblings_marked_external': n_ext,
+                         'trait_impl_methods_assumed': assumed_sibs})
     if fc.get('wrapconsts'):
         INT = ('usize', 'u8', 'u16', 'u32', 'u64', 'u128', 'i32', 'i64', 'isize')
         for it in items:
